@@ -1,6 +1,6 @@
 (* PV.C02.Examples — non-vacuity: concrete non-trivial inputs meeting the hypotheses of the theorems. *)
 From Coq Require Import QArith List Bool PArith Arith.
-From PV Require Import Base.PyData Base.Expr Base.Interp Base.Stmts C02.Model C02.CondPrint C02.Refuted C02.Remap C02.PrintSeq C02.IndexDiff C02.KeepText C02.Read C02.KRename.
+From PV Require Import Base.PyData Base.Expr Base.Interp Base.Stmts C02.Model C02.CondPrint C02.Refuted C02.Remap C02.PrintSeq C02.IndexDiff C02.KeepText C02.Read C02.KRename C02.ScaleTrack.
 Import ListNotations.
 
 (* diff on lists that differ in the middle, with a common head and tail: all three operations occur *)
@@ -124,3 +124,13 @@ Example k_rename_example :
   k_rename_loop 3 [(1, 2); (2, 3); (3, 4)]%nat 3 (fun a b => (Nat.eqb a 2 && Nat.eqb b 3) || (Nat.eqb a 3 && Nat.eqb b 3)) =
   [((1, 0), Some (2, 0)); ((1, 2), Some (2, 3)); ((2, 0), Some (3, 0))]%nat.
 Proof. vm_compute. reflexivity. Qed.
+
+(* CENTRAL alone, then DEPOT in front, then two transits in front: with the refresh S1 -> S2 -> S4 (= number of CENTRAL);
+   WITHOUT the refresh (the behaviour before fix 4524793 on the $DES path) the second remap is computed from the
+   stale map {CENTRAL: 1, OUTPUT: 2}: S2 is taken for the old OUTPUT number and becomes S5, not the central compartment's 4 *)
+Example scale_track_example :
+  names_ok sX sA [sA] = true /\ forallb (names_ok sX sA) [[sB; sA]; [sC; 9%positive; sB; sA]] = true /\
+  snd (scale_run true sX (new_compartmental_map [sA], 1%nat) [[sB; sA]; [sC; 9%positive; sB; sA]]) = 4%nat /\
+  number_of [sC; 9%positive; sB; sA] sA = Some 4%nat /\
+  snd (scale_run false sX (new_compartmental_map [sA], 1%nat) [[sB; sA]; [sC; 9%positive; sB; sA]]) = 5%nat.
+Proof. repeat split; vm_compute; reflexivity. Qed.
